@@ -658,9 +658,13 @@ def run (S : Special) (c : Ctx ns) : Res Unit := do
 
 end Special
 
-/-- `mj_validateReferences` -/
-def validate (L : Layout ns) (S : Special) (m : Model ns) : Res Unit :=
-  (validateTable L m L.refs).bind fun _ => Special.run S { L := L, m := m }
+/-- the special logic of the tree as a function of the model -/
+def specialOf (L : Layout ns) (S : Special) : Model ns → Res Unit := fun m => Special.run S { L := L, m := m }
+
+/-- `mj_validateReferences`: the table loop, then the special logic `sp` (the theorems hold for any
+    `sp`; the tree's is `specialOf layout special`) -/
+def validate (L : Layout ns) (sp : Model ns → Res Unit) (m : Model ns) : Res Unit :=
+  (validateTable L m L.refs).bind fun _ => sp m
 
 /-! ## mj_loadModelBuffer -/
 
@@ -708,62 +712,63 @@ def readArrays (intMax : Int) (len : Nat) (s : Sizes ns) : List (Ptr ns) → Lis
           if num.toNat > cap then .hazard (.arrayOverflow p.name)
           else (readArrays intMax len s ps caps rest').bind fun (as, r) => .ok (a :: as, r)
 
-structure LoadTrace where
-  nbuf : Option Nat     -- size of the model buffer allocation, if the loader got that far
+theorem decN_length (w k : Nat) (b : Bytes) : (decN w k b).length = k := by
+  induction k generalizing b with
+  | zero => rfl
+  | succ k ih => simp [decN, ih]
 
-/-- `mj_loadModelBuffer(buffer, buffer_sz)` with `buffer_sz = buf.length`; also returns the size of
-    the buffer allocated by `mj_makeModel` (observable through `mju_user_malloc`) -/
-def loadT (L : Layout ns) (S : Special) (buf : Bytes) : Res (Model ns) × LoadTrace :=
+/-- the `nsize` sizes decoded from their `sizeSz*nsize` bytes -/
+def decodeSizes (L : Layout ns) (sb : Bytes) : Sizes ns :=
+  ⟨(decN L.sizeSz ns sb).toArray, by simp [decN_length]⟩
+
+/-- header and sizes stage of `mj_loadModelBuffer`: returns the sizes and the unread rest -/
+def loadSizes (L : Layout ns) (buf : Bytes) : Res (Sizes ns × Bytes) :=
   let len := buf.length
   let nh := L.header.length
-  if len < nh * L.intSz then (.reject "Model file has an incomplete header", ⟨none⟩) else
+  if len < nh * L.intSz then .reject "Model file has an incomplete header" else
   match rdN buf (nh * L.intSz) with
-  | none => (.hazard .inputOverread, ⟨none⟩)
+  | none => .hazard .inputOverread
   | some (hb, rest1) =>
-  match checkHeader L.header (decN L.intSz nh hb) L.headerMsgs with
-  | .reject w => (.reject w, ⟨none⟩)
-  | .fatal w => (.fatal w, ⟨none⟩)
-  | .hazard u => (.hazard u, ⟨none⟩)
-  | .ok () =>
-  if (len - rest1.length) + L.sizeSz * ns > len then
-    (.reject "Truncated model file - ran out of data while reading sizes", ⟨none⟩) else
-  match rdN rest1 (L.sizeSz * ns) with
-  | none => (.hazard .inputOverread, ⟨none⟩)
-  | some (sb, rest2) =>
-  let sl := decN L.sizeSz ns sb
-  if hs : sl.length = ns then
-    let s : Sizes ns := ⟨sl.toArray, by simpa using hs⟩
-    match makeModel L s with
-    | .reject w => (.reject (w ++ " | Invalid sizes, unable to load model"), ⟨none⟩)
-    | .fatal w => (.fatal w, ⟨none⟩)
-    | .hazard u => (.hazard u, ⟨none⟩)
-    | .ok al =>
-    let tr : LoadTrace := ⟨some al.nbuffer⟩
-    if (al.nbuffer : Int) ≠ s[L.nbuffer] then (.reject "Corrupted model, wrong nbuffer field", tr) else
-    if (len - rest2.length) + blobTotal L > len then
-      (.reject "Truncated model file - ran out of data while reading structs", tr) else
-    match readBlobs L.blobs rest2 with
-    | .reject w => (.reject w, tr)
-    | .fatal w => (.fatal w, tr)
-    | .hazard u => (.hazard u, tr)
-    | .ok (blobs, rest3) =>
-    match readArrays L.intMax len s L.ptrs al.caps rest3 with
-    | .reject w => (.reject w, tr)
-    | .fatal w => (.fatal w, tr)
-    | .hazard u => (.hazard u, tr)
-    | .ok (arrays, rest4) =>
-    if rest4.length ≠ 0 then (.reject "Model file is too large", tr) else
-    let m : Model ns := { sizes := s, blobs := blobs, arrays := arrays }
-    match validate L S m with
-    | .reject w => (.reject w, tr)
-    | .fatal w => (.fatal w, tr)
-    | .hazard u => (.hazard u, tr)
-    | .ok () => (.ok m, tr)
-  else (.hazard (.oobIndex "sizes"), ⟨none⟩)
+    (checkHeader L.header (decN L.intSz nh hb) L.headerMsgs).bind fun _ =>
+    if (len - rest1.length) + L.sizeSz * ns > len then
+      .reject "Truncated model file - ran out of data while reading sizes"
+    else match rdN rest1 (L.sizeSz * ns) with
+      | none => .hazard .inputOverread
+      | some (sb, rest2) => .ok (decodeSizes L sb, rest2)
 
-def load (L : Layout ns) (S : Special) (buf : Bytes) : Res (Model ns) := (loadT L S buf).1
+/-- the rest of `mj_loadModelBuffer` once the sizes are known; `len` is `buffer_sz` -/
+def loadBody (L : Layout ns) (sp : Model ns → Res Unit) (len : Nat) (s : Sizes ns) (rest2 : Bytes) : Res (Model ns) :=
+  match makeModel L s with
+  | .reject w => .reject (w ++ " | Invalid sizes, unable to load model")
+  | .fatal w => .fatal w
+  | .hazard u => .hazard u
+  | .ok al =>
+    if (al.nbuffer : Int) ≠ s[L.nbuffer] then .reject "Corrupted model, wrong nbuffer field"
+    else if (len - rest2.length) + blobTotal L > len then
+      -- (this path returns without `mj_deleteModel(m)`: the model allocated above is leaked)
+      .reject "Truncated model file - ran out of data while reading structs"
+    else
+      (readBlobs L.blobs rest2).bind fun br =>
+      (readArrays L.intMax len s L.ptrs al.caps br.2).bind fun ar =>
+      if ar.2.length ≠ 0 then .reject "Model file is too large"
+      else
+        let m : Model ns := { sizes := s, blobs := br.1, arrays := ar.1 }
+        (validate L sp m).bind fun _ => .ok m
+
+/-- `mj_loadModelBuffer(buffer, buffer_sz)` with `buffer_sz = buf.length` -/
+def load (L : Layout ns) (sp : Model ns → Res Unit) (buf : Bytes) : Res (Model ns) :=
+  (loadSizes L buf).bind fun sr => loadBody L sp buf.length sr.1 sr.2
+
+/-- size of the model buffer requested from the allocator by `mj_makeModel`, if the loader gets that
+    far (observable through `mju_user_malloc`; used only by the differential run) -/
+def loadNbuf (L : Layout ns) (buf : Bytes) : Option Nat :=
+  match loadSizes L buf with
+  | .ok sr => match makeModel L sr.1 with
+    | .ok al => some al.nbuffer
+    | _ => none
+  | _ => none
 
 /-- the `Option` view: `some m` exactly when the C loader returns a non-NULL model -/
-def loadOpt (L : Layout ns) (S : Special) (buf : Bytes) : Option (Model ns) := (load L S buf).toOption
+def loadOpt (L : Layout ns) (sp : Model ns → Res Unit) (buf : Bytes) : Option (Model ns) := (load L sp buf).toOption
 
 end MjProof.Mjb
